@@ -532,11 +532,23 @@ class JsonWebEncryption:
             protected = None
 
         unprotected = obj.get("unprotected")
+        if unprotected is not None and not isinstance(unprotected, dict):
+            raise DecodeError('Invalid "unprotected" value')
 
-        recipients = obj["recipients"]
+        recipients = obj.get("recipients")
+        if not isinstance(recipients, list):
+            raise DecodeError('Invalid "recipients" value')
+        for member in ("iv", "ciphertext", "tag"):
+            if member not in obj:
+                raise DecodeError(f'Missing "{member}" value')
+
         for recipient in recipients:
+            if not isinstance(recipient, dict) or "encrypted_key" not in recipient:
+                raise DecodeError('Invalid "recipients" value')
             if "header" not in recipient:
                 recipient["header"] = {}
+            if not isinstance(recipient["header"], dict):
+                raise DecodeError('Invalid "recipients" value')
             recipient["encrypted_key"] = extract_segment(
                 to_bytes(recipient["encrypted_key"]), DecodeError, "encrypted key"
             )
@@ -697,6 +709,8 @@ class JsonWebEncryption:
             raise MissingAlgorithmError()
 
         alg = header["alg"]
+        if not isinstance(alg, str):
+            raise UnsupportedAlgorithmError()
         if self._algorithms is not None and alg not in self._algorithms:
             raise UnsupportedAlgorithmError()
         if alg not in self.ALG_REGISTRY:
@@ -707,6 +721,8 @@ class JsonWebEncryption:
         if "enc" not in header:
             raise MissingEncryptionAlgorithmError()
         enc = header["enc"]
+        if not isinstance(enc, str):
+            raise UnsupportedEncryptionAlgorithmError()
         if self._algorithms is not None and enc not in self._algorithms:
             raise UnsupportedEncryptionAlgorithmError()
         if enc not in self.ENC_REGISTRY:
@@ -716,6 +732,8 @@ class JsonWebEncryption:
     def get_header_zip(self, header):
         if "zip" in header:
             z = header["zip"]
+            if not isinstance(z, str):
+                raise UnsupportedCompressionAlgorithmError()
             if self._algorithms is not None and z not in self._algorithms:
                 raise UnsupportedCompressionAlgorithmError()
             if z not in self.ZIP_REGISTRY:
